@@ -7,6 +7,7 @@ import traceback
 
 from .loader import Project, AnalysisError
 from .report import Report
+from .rules import CannotEval
 
 
 def run_one(pid, tier, root, seed, quiet=False):
@@ -51,6 +52,8 @@ def run_one(pid, tier, root, seed, quiet=False):
                     raise AnalysisError('self-validation battery: ' + '; '.join(problems))
     except AnalysisError as e:
         err = str(e)
+    except CannotEval as e:   # an expression / statement form the evaluators have no rule for: no verdict (never a violation)
+        err = f'shape not recognised (no verdict): {e}'
     except Exception as e:  # a bug in the analysis is never a verdict about the code
         traceback.print_exc(file=sys.stderr)
         err = f'internal error {type(e).__name__}: {e}'
